@@ -42,10 +42,27 @@ def make_filter(filters):
                                           ready_operations_filter_factory)
     if not filters:
         return None
+    from job_shop_lib.dispatching import ReadyOperationsFilterType
+
     names = [FILTER_NAMES[f] for f in filters]
-    if len(names) == 1:
-        return ready_operations_filter_factory(names[0])
-    return create_composite_operation_filter(names)
+    # the documented ways of naming the same filter configuration (Iterable of names / enum members /
+    # callables); which one is used is a function of the configuration, so a case replays identically
+    style = (sum(filters) + 3 * len(filters)) % 6
+    enums = [ReadyOperationsFilterType(n) for n in names]
+    funcs = [ready_operations_filter_factory(n) for n in names]
+    if len(names) == 1 and style < 3:
+        return ready_operations_filter_factory([names[0], enums[0], funcs[0]][style])
+    if style == 0:
+        return create_composite_operation_filter(names)
+    if style == 1:
+        return create_composite_operation_filter(tuple(enums))
+    if style == 2:
+        return create_composite_operation_filter(n for n in names)          # one-shot generator
+    if style == 3:
+        return create_composite_operation_filter(funcs)
+    if style == 4:
+        return create_composite_operation_filter(iter([f if i % 2 else n for i, (n, f) in enumerate(zip(names, funcs))]))
+    return create_composite_operation_filter(map(str, names))               # one-shot map object
 
 
 def _observer_classes():
